@@ -61,6 +61,15 @@ def reads(out, name, before_seq=None):
     return False
 
 
+def unequal_on_path(rel):
+    """the atoms establish that the two symbols differ"""
+    for op, pol, d, ev in rel:
+        if d is not None and len(d.terms) == 2 and d.c == 0 and sorted(d.terms.values()) == [-1, 1]:
+            if (op == "Eq" and not pol) or (op == "NotEq" and pol):
+                return True
+    return False
+
+
 def equal_on_path(rel):
     """the atoms establish equality of the two symbols"""
     for op, pol, d, ev in rel:
@@ -138,6 +147,9 @@ def run(ck):
     # never success for a fragment that was flushed or never re-sent (R13.7, shared with C13)
     from . import c13
     c13.standby_rule(ck, agg)
+    # "every message the queue hands over is one that some node sent to it": a NETWORK_ACK (which still carries the acknowledged fragment's
+    # bytes) is reported to the waiting writer and never queued (R13.4, shared with C13)
+    c13.receive_rule(ck, agg, net.NetNode(ck, "rf24_network", "RF24Network"))
     agg.flush()
     ck.floor("R06", "fragment kinds x cache states", nsc, 5)
     ck.floor("R06.4", "re-delivery scenarios after completion", nre, 2)
@@ -239,6 +251,17 @@ def _core(ck, agg):
                                     label, "" if kind == "LAST" else " and the counter is the next one", out.value, tests))
                     elif ident_ok is False:
                         pass
+                    # ... and a fragment is dropped only for a reason that tells it apart from the awaited one: its origin or frame id was
+                    # found to differ from the cached ones, or (MORE) its counter is not the next one. A drop decided by anything else about
+                    # the cached message (e.g. the *truthiness* of the cached origin - the master's address is 0) loses a message
+                    differs = any(unequal_on_path(relates(out, "cache.header." + fld, "frame.header." + fld)) for fld in ("from_node", "frame_id"))
+                    out_of_seq = kind == "MORE" and any(d is not None and d.terms.get("cache.header.reserved") == -d.terms.get("frame.header.reserved") and
+                                                        ((op == "NotEq" and pol) or (op == "Eq" and not pol)) for op, pol, d, ev in seq_rel)
+                    if not (ident_ok and in_seq):
+                        tests = sorted({(ast.unparse(e_.node), e_.data[0]) for e_ in out.trace if e_.kind == "cond" and e_.func is f})
+                        agg.add("R06.8", f, "a MORE/LAST fragment is dropped only because its origin / frame id differ from the cached ones or it is out of sequence", differs or out_of_seq,
+                                "%s: the fragment is dropped (returns %r) on a path that never found its origin or frame id different from the cached message's%s. Decisions on the path: %s" % (
+                                    label, out.value, "" if kind == "LAST" else " nor its counter out of sequence", tests))
                 if not sp and not dl:
                     agg.add("R06.5", f, "a dropped fragment is reported as not stored", value_matches(out.value, False), "%s: nothing spliced or delivered but returns %r" % (label, out.value))
                     continue
